@@ -105,7 +105,7 @@ func TestReplayC03(t *testing.T) { replayLoop(t, recC03(), "TestC03", "C03", fal
 
 // C05, closed-loop part: the real sidecars' counters at the cycle in which the source copy disappears.
 func recC05() *vkit.Recorder {
-	r := vkit.Rec("C05", "exploration", "single-cycle scenarios biased to transfer pairs with every combination of scrape counts 0-6 on either side, plus closed-loop runs with real sidecars in which moves happen; non-trivial = an execution containing a move start or a judged move end; distinct = scenario digest (single cycle) / run digest (closed loop)")
+	r := vkit.Rec("C05", "exploration", "single-cycle scenarios biased to transfer pairs with every combination of scrape counts 0-6 on either side, plus closed-loop runs with real sidecars in which moves happen (a fifth of them directed: scrapes of the source are in flight while the update that begins the move is applied, then the destination is scraped more often than the source); non-trivial = an execution containing a move start or a judged move end; distinct = scenario digest (single cycle) / run digest (closed loop)")
 	r.Assume(loopAssume)
 	return r
 }
@@ -116,7 +116,18 @@ func TestC05Loop(t *testing.T) {
 		// moves that get interrupted (destination unready / unreachable, lost updates) and are started
 		// again are part of "every sequence of cycles and scrapes during a move"; faults that reset
 		// sidecar state (restart, shard removal) are left to C06
-		c := GenCase(t, rapid.Bool().Draw(t, "withInterruptions"))
+		var c *Case
+		if rapid.IntRange(0, 4).Draw(t, "heldMove") == 0 {
+			c = GenHeldMove(t)
+		} else {
+			c = GenCase(t, rapid.Bool().Draw(t, "withInterruptions"))
+			// any scrape of the prefix may be one that is still in flight while the next cycle runs
+			for i := range c.Prefix {
+				if c.Prefix[i].Kind == "scrape" && rapid.IntRange(0, 3).Draw(t, fmt.Sprintf("held%d", i)) == 0 {
+					c.Prefix[i].Kind = "scrapeHeld"
+				}
+			}
+		}
 		var keep []Action
 		for _, a := range c.Prefix {
 			switch a.Kind {
